@@ -495,3 +495,46 @@ Proof.
       intros [H|[]]; discriminate).
   - vm_compute. reflexivity.
 Qed.
+
+(** * Loads made with a render context leave every cached binding alone *)
+
+Lemma assoc_move_to_end {V} (k k' : str) (v : V) l :
+  assoc k l = Some v -> assoc k' (od_move_to_end k v l) = assoc k' l.
+Proof.
+  intro H. unfold od_move_to_end. rewrite assoc_app, assoc_remove_key. simpl.
+  destruct (str_eqb k' k) eqn:E.
+  - apply str_eqb_eq in E. subst k'. symmetry. exact H.
+  - destruct (assoc k' l); reflexivity.
+Qed.
+
+(** A cache hit that needs no reload, made with a render context (include /
+    render / extends, or get_template with a context argument): the caller is
+    served the template bound to its OWN globals [g], and every entry of the
+    cache - the one that was hit included - still holds the template object it
+    held, with the globals its holder bound: only the recency order changes. *)
+Theorem context_hit_serves_own_globals_and_keeps_bindings c s name ns g a t ch1 :
+  lru_get (cache s) (cache_key c name ns) = Some (t, ch1) ->
+  c_auto_reload c && negb (is_up_to_date s t a) = false ->
+  let r := cached_load c s name ns g a false in
+  fst r = Loaded (t_content t) g /\
+  (forall k, assoc k (od (cache (snd r))) = assoc k (od (cache s))) /\
+  store (snd r) = store s.
+Proof.
+  intros Hg Hu. unfold cached_load. rewrite Hg, Hu. cbn [fst snd with_cache cache store].
+  split; [reflexivity|]. split; [|reflexivity].
+  intro k. unfold lru_get in Hg.
+  destruct (assoc (cache_key c name ns) (od (cache s))) as [v|] eqn:Ea; [|discriminate].
+  inversion Hg; subst; clear Hg. cbn [od]. apply assoc_move_to_end. exact Ea.
+Qed.
+
+(** the hypotheses are satisfiable: load, then load again with a context and
+    other globals *)
+Example context_hit_example :
+  let c := {| c_cap := 2; c_auto_reload := true; c_ns_key := false; c_ns_aware := false; c_fresh := true |} in
+  let t := [116%N] in
+  let s := final c (init c) [Modify t 7; Load t None 1 false false] in
+  exists tm ch1, lru_get (cache s) (cache_key c t None) = Some (tm, ch1) /\
+    c_auto_reload c && negb (is_up_to_date s tm false) = false /\
+    fst (cached_load c s t None 2 false false) = Loaded 7 2 /\
+    snapshot (snd (cached_load c s t None 2 false false)) = [(t, (7, 1))]%N.
+Proof. vm_compute. eexists. eexists. repeat split; reflexivity. Qed.
